@@ -1,9 +1,10 @@
+import TplModel.Props.RenderProps
 import TplModel.Props.C05refine
 import TplModel.Props.C09arith
 import TplModel.Props.C12eval
 /-! # C12 — failures propagate; unselected operands are not evaluated
 
-OBLIGATIONS: RN.exec_refines_ref, RN.execute_refines, C09arith.wrong_kind_is_error, C09arith.wrong_kind_is_error_int, C09arith.wrong_kind_is_error_ord, C09arith.div_zero_panics, C09arith.mod_zero_panics, C09arith.shl_negative_panics, EV.sticky_is_first_failure, EV.sticky_exception_exact, EV.short_circuit_and, EV.short_circuit_or, EV.cond_selects_true, EV.cond_selects_false, EV.error_propagates_deep, EV.nothing_called_after_failure, EV.calls_before_failure_kept, EV.panic_propagates_deep, EV.error_propagates_arg, EV.error_propagates_callee, EV.no_call_after_failure, EV.error_propagates_fn_result, EV.calls_are_prefix_closed, EV.no_value_for_failure, EV.eval_mono
+OBLIGATIONS: RN.exec_refines_ref, RN.execute_refines, C09arith.wrong_kind_is_error, C09arith.wrong_kind_is_error_int, C09arith.wrong_kind_is_error_ord, C09arith.div_zero_panics, C09arith.mod_zero_panics, C09arith.shl_negative_panics, EV.sticky_is_first_failure, EV.sticky_exception_exact, EV.short_circuit_and, EV.short_circuit_or, EV.cond_selects_true, EV.cond_selects_false, EV.error_propagates_deep, EV.nothing_called_after_failure, EV.calls_before_failure_kept, EV.panic_propagates_deep, EV.error_propagates_arg, EV.error_propagates_callee, EV.no_call_after_failure, EV.error_propagates_fn_result, EV.calls_are_prefix_closed, EV.no_value_for_failure, EV.eval_mono, RN.Props.error_stops_render, RN.Props.error_stops_render_indep, RN.Props.step_output_is_prefix, RN.Props.output_is_prefix, RN.Props.output_text_is_prefix
 
 Template level: in the specification every phase is sequenced with `Q.andThen`, which stops at the first non-ok
 status, keeps the chunks written so far and appends nothing afterwards (`andThen_stops` below); the refinement
